@@ -52,37 +52,8 @@ def generate(chk, cfgs, num, depth, tagprefix, sizes=None, kinds=("cut", "cut", 
     return scenarios, infos
 
 
-def judge(chk, pid, rigbin, scenarios, results, confirm_stalls=True, bound_ms=60000, stale_ms=600, trace_cfg="Trace.cfg"):
-    """Trace validation + stall confirmation -> violations."""
-    by_name = {s["name"]: s for s in scenarios}
-    bad = corerig.validate(chk, SPECDIR, "ServerMux_Trace", trace_cfg, [results[n] for n in sorted(results)])
-    for res, kind, detail, local, ev in bad:
-        sig = corerig.signature(pid, res, kind, detail, local, ev)
-        chk.violation(sig, "trace of scenario %s: %s %s at event %s %s" % (res["name"], kind, detail, local, ev),
-                      {"scenario": by_name.get(res["name"]), "event_index": local, "event": ev, "kind": kind, "detail": detail,
-                       "events": res["events"][:max(60, (local or 0) + 5)]})
-    stalled = [n for n in sorted(results) if results[n].get("stalled")]
-    if stalled and bad:
-        chk.note("%d scenario(s) stalled; not confirmed separately because safety violations were already observed" % len(stalled))
-    elif stalled and confirm_stalls:
-        chk.note("%d scenario(s) stalled; confirming alone with doubled limits: %s" % (len(stalled), stalled[:3]))
-        confirm = [dict(by_name[n], name=n + "-confirm") for n in stalled[:3]]
-        r2, _, _, _ = corerig.run_rig(rigbin, confirm, par=1, bound_ms=2 * bound_ms, stale_ms=stale_ms,
-                                      timeout=len(confirm) * (2 * bound_ms / 1000 + 60) + 60, tag="confirm")
-        for sc in confirm:
-            res2 = r2[sc["name"]]
-            n = sc["name"][:-len("-confirm")]
-            if res2.get("stalled"):
-                sig = "%s/stall/after:%s" % (pid, corerig.fault_position(res2, None))
-                chk.violation(sig, "session made no progress for %d ms after the last fault although healthy carriers were available: %s" % (2 * bound_ms, res2.get("state")),
-                              {"scenario": by_name[n], "state": res2.get("state")})
-            else:
-                chk.note("stall of %s not reproduced alone (load artefact)" % n)
-                bad2 = corerig.validate(chk, SPECDIR, "ServerMux_Trace", trace_cfg, [res2])
-                for res, kind, detail, local, ev in bad2:
-                    chk.violation(corerig.signature(pid, res, kind, detail, local, ev), "trace of scenario %s: %s %s at event %s %s" % (res["name"], kind, detail, local, ev),
-                                  {"scenario": by_name[n], "event_index": local, "event": ev, "kind": kind, "detail": detail})
-    return bad, stalled
+def judge(chk, pid, rigbin, scenarios, results, **kw):
+    return corerig.judge(chk, pid, rigbin, scenarios, results, SPECDIR, "ServerMux_Trace", **kw)
 
 
 def run(chk, args):
